@@ -219,8 +219,9 @@ def chain(e: ast.AST, is_leaf: Callable[[ast.AST], bool], resolve_call: Callable
             leaf = rec(n.operand)
             ops.append("neg")
             return leaf
-        if isinstance(n, ast.IfExp) and any(isinstance(x, ast.Call) and isinstance(x.func, ast.Name) and x.func.id == "len"
-                                            for x in ast.walk(n.test)) and isinstance(n.orelse, ast.Constant):
+        if isinstance(n, ast.IfExp) and (any(isinstance(x, ast.Call) and isinstance(x.func, ast.Name) and x.func.id == "len" for x in ast.walk(n.test)) or
+                                         (isinstance(n.test, ast.Subscript) and isinstance(n.test.slice, ast.Slice) and n.test.slice.upper is None)) and \
+                isinstance(n.orelse, ast.Constant):
             return rec(n.body)      # optional trailing field: `f(v[k]) if len(v) > k else <default>` decodes like f(v[k])
         if isinstance(n, ast.BinOp) and isinstance(n.op, ast.BitAnd) and isinstance(n.right, ast.Constant) and \
                 isinstance(n.right.value, int):
